@@ -29,6 +29,7 @@ type Options struct {
 	Redirect     map[string]string // std import path -> replacement import path
 	RTImport     string            // import path of the run-time package providing StepFunc / Keys
 	StepFunc     string            // "Tick" or "Yield"; "" = no step insertion
+	StepArg      bool              // pass the site number: rt.Yield(<n>)
 	MapRanges    bool              // rewrite range-over-map loops
 	KnobConst    string            // name of an integer constant to turn into `var X = rt.Knob(<old>)`; "" = none
 	DeferAtExit  bool              // insert `defer rt.AtExit(-1)` at the top of main.main
@@ -47,6 +48,7 @@ type Census struct {
 	Packages      int            `json:"packages"`
 	Files         int            `json:"files"`
 	StepSites     int            `json:"step_sites"`
+	StepSiteNames []string       `json:"-"` // index = site number: "file:line func"
 	MapSites      []MapSite      `json:"map_sites"`
 	Redirected    map[string]int `json:"redirected_imports"`
 	GoStmts       []string       `json:"go_statements"`
@@ -191,19 +193,40 @@ func rewriteFile(o Options, c *Census, p *packages.Package, f *ast.File, fname s
 		return true
 	})
 
+	curFunc := ""
 	step := func(body *ast.BlockStmt) {
 		if o.StepFunc == "" || body == nil {
 			return
 		}
-		fe.ins(off(body.Lbrace)+1, " "+rtAlias+"."+o.StepFunc+"(); ")
+		arg := ""
+		if o.StepArg {
+			arg = strconv.Itoa(len(c.StepSiteNames))
+		}
+		c.StepSiteNames = append(c.StepSiteNames, site(body.Lbrace)+" "+p.Name+"."+curFunc)
+		fe.ins(off(body.Lbrace)+1, " "+rtAlias+"."+o.StepFunc+"("+arg+"); ")
 		needRT = true
 		c.StepSites++
+	}
+
+	// uses of the knob constant are wrapped: X -> rt.Knob("X", X)
+	if o.KnobConst != "" {
+		for id, obj := range p.TypesInfo.Uses {
+			if cst, ok := obj.(*types.Const); ok && cst.Name() == o.KnobConst && cst.Pkg() == p.Types && id.Pos() >= f.Pos() && id.End() <= f.End() {
+				c.KnobFound = true
+				fe.repl(off(id.Pos()), len(id.Name), rtAlias+".Knob("+strconv.Quote(o.KnobConst)+", "+id.Name+")")
+				needRT = true
+			}
+		}
 	}
 
 	mapN := 0
 	ast.Inspect(f, func(n ast.Node) bool {
 		switch x := n.(type) {
 		case *ast.FuncDecl:
+			curFunc = x.Name.Name
+			if x.Recv != nil && len(x.Recv.List) == 1 {
+				curFunc = recvName(x.Recv.List[0].Type) + "." + curFunc
+			}
 			if x.Body != nil {
 				if o.DeferAtExit && p.Name == "main" && x.Name.Name == "main" && x.Recv == nil {
 					fe.ins(off(x.Body.Lbrace)+1, " defer "+rtAlias+".AtExit(-1); ")
@@ -273,18 +296,6 @@ func rewriteFile(o Options, c *Census, p *packages.Package, f *ast.File, fname s
 				}
 				if ip == "sync" && name == "Range" {
 					c.MapIterCalls = append(c.MapIterCalls, site(x.Pos())+" sync.Map.Range")
-				}
-			}
-		case *ast.GenDecl:
-			if o.KnobConst != "" && x.Tok == token.CONST && len(x.Specs) == 1 && !x.Lparen.IsValid() {
-				vs := x.Specs[0].(*ast.ValueSpec)
-				if len(vs.Names) == 1 && vs.Names[0].Name == o.KnobConst && len(vs.Values) == 1 && vs.Type == nil {
-					c.KnobFound = true
-					fe.repl(off(x.TokPos), len("const"), "var")
-					v := vs.Values[0]
-					old := string(src[off(v.Pos()):off(v.End())])
-					fe.repl(off(v.Pos()), off(v.End())-off(v.Pos()), rtAlias+".Knob("+strconv.Quote(o.KnobConst)+", "+old+")")
-					needRT = true
 				}
 			}
 		}
@@ -403,4 +414,16 @@ func applyEdits(src []byte, edits []edit) []byte {
 	}
 	out = append(out, src[pos:]...)
 	return out
+}
+
+func recvName(e ast.Expr) string {
+	switch x := e.(type) {
+	case *ast.StarExpr:
+		return recvName(x.X)
+	case *ast.Ident:
+		return x.Name
+	case *ast.IndexExpr:
+		return recvName(x.X)
+	}
+	return "?"
 }
